@@ -3,7 +3,7 @@ import ast
 
 from ..core import Mutant, norm
 from .. import memo
-from ..astutil import method_call, unparse
+from ..astutil import method_call, unparse, oriented
 from ..index import dotted, walk_local
 
 EXPLANATION = ("C20: header layout agreement between rend() (concatenation order code, count/number, mid, [vid], body, [sig]) "
@@ -70,7 +70,11 @@ def check(run):
     refuse = [n for n in walk_local(fuse.node) if isinstance(n, ast.If) and n.body and isinstance(n.body[-1], ast.Return)
               and getattr(n.body[-1].value, "value", 0) is None]
     gparam, cparam = fuse.params()[0][1:3]
-    ok = bool(refuse) and ("len(%s) < %s" % (gparam, cparam)) in unparse(refuse[0].test)
+    ok = False
+    for c in ast.walk(refuse[0].test) if refuse else ():
+        o = oriented(c, lambda e: isinstance(e, ast.Call) and dotted(e.func) == "len" and e.args and dotted(e.args[0]) == gparam) if isinstance(c, ast.Compare) else None
+        if o and o[1] == "Lt" and dotted(o[2]) == cparam:
+            ok = True
     run.ob("C20.R5", "%s:refuses-incomplete" % fuse.fq, ok, run.site(fuse), "" if ok else "fuse() does not refuse when fewer than cnt grams are present")
     loops = [n for n in walk_local(fuse.node) if isinstance(n, ast.For)]
     result = {dotted(x) for n in walk_local(fuse.node) if isinstance(n, ast.Return) and n.value is not None
